@@ -36,6 +36,10 @@ OBLIGATIONS = [
      stubs={'_ZNSt6vectorIbSaIbEE13_M_insert_auxESt13_Bit_iteratorb': 'unreachable'},
      bound='ANY base table of 2 faces over <= 4 vertices satisfying the C13 invariants (assumed = asserted by the phase obligations), ANY symmetric set of seam edges',
      covers='MeshAttributeCornerTable::RecomputeVertices / RecomputeVerticesInternal<false>, SwingLeft/SwingRight/Opposite over seams, LeftMostCorner, num_vertices'),
+  Ob('C13.attr_vertices_3', 'C13/attrct.cc', 'h_attr_vertices', tier='thorough', unwind=10, unwindset=[RV + '.0:4', RV + '.1:4', RV + '.2:6'], defines={'NF': 3, 'NV': 4}, max_alloc=64, mem_gb=20, timeout=1700, backend='kissat',
+     stubs={'_ZNSt6vectorIbSaIbEE13_M_insert_auxESt13_Bit_iteratorb': 'unreachable'},
+     bound='ANY base table of 3 faces over <= 4 vertices satisfying the C13 invariants, ANY symmetric set of seam edges',
+     covers='MeshAttributeCornerTable::RecomputeVertices / RecomputeVerticesInternal<false>'),
   Ob('C13.break_4', H, 'h_break', tier='extended', unwind=13, backend='kissat', defines={'NF': 4, 'NV': 5}, max_alloc=64, mem_gb=30, unwindset=br_bounds(4, 5),
      bound='phase 2 from ANY consistent table of 4 triangles over vertex ids 0..4 (not registered: no verdict within the thorough cap)',
      covers='CornerTable::BreakNonManifoldEdges'),
